@@ -12,7 +12,12 @@ PROP = {
              "/ random cell bits, dropped or swapped references): accept/reject and result vs model; (4) Get/Put sequences (present "
              "keys, absent keys, one-bit neighbours) on a decoded dictionary of every key type incl. signed keys of both signs, then "
              "Marshal: answers, Items and cells vs model; (5) AddressWithWorkchain keys given as values (workchains -128,-1,0,1,127, "
-             "random): Put, Marshal, Unmarshal vs model. Oracles on the implementation: decode(encode m) = the pairs in ascending bit "
+             "random): Put, Marshal, Unmarshal vs model; (6) HISTORIES on one dictionary object (Hashmap and HashmapE; built by Put, by "
+             "NewHashmap(E) with the slices ascending / descending / negatives-first / shuffled, or two objects over the same "
+             "slices): Items, Marshal, Items, Get, Marshal, Put, Marshal ... every answer and every encoding vs the model, in which "
+             "Marshal is a pure function of the pair list; oracles: Items() (as slices) is unchanged by Marshal/Get/Items, an "
+             "unchanged object marshals to identical cells every time (also through its alias), every encoding decodes to the "
+             "current mapping, Get agrees with a reference map. Oracles on the implementation (streams 1-5): decode(encode m) = the pairs in ascending bit "
              "order; equal cells for two insertion orders and for NewHashmap vs Put; duplicate keys rejected; valid foreign "
              "dictionaries decode to their mapping; Get/Put answers and the re-encoded dictionary agree with a reference map; every "
              "key type marshals to FixedSize() bits; Keys/Values/Items consistent. corpus/C05 replays the inputs that failed before "
@@ -23,7 +28,8 @@ PROP = {
                     "ascending bit order, the cells are invariant under permutation of the slice and of the Put order; every "
                     "well-formed Patricia tree with any of the three label forms per edge decodes to its mapping; Get/Put on a decoded "
                     "dictionary followed by Marshal/Unmarshal equal lookup/update of the abstract map for every Compare that is a "
-                    "strict total order, and the Compare of UintN/IntN/BitsN/AddressWithWorkchain is shown to be such an order "
+                    "strict total order (also after any history of Put/Marshal/Items/Get on one object: C05_marshal_does_not_mutate, "
+                    "C05_history_marshal_sound), and the Compare of UintN/IntN/BitsN/AddressWithWorkchain is shown to be such an order "
                     "(numeric / two's complement / bytes / uint32(workchain)+bytes = bit order of the 288-bit key). "
                     "coq/Properties/C05_gen.v re-checks on today's source that every key type writes and reads exactly FixedSize() "
                     "bits and compares the way its encoding requires."),
@@ -31,6 +37,8 @@ PROP = {
                     "the value codec is a parameter satisfying decode(encode v) = v in tail position (C03's law); the harness uses tlb.Uint32 values",
                     "HashmapAug/HashmapAugE are decode-only in the library (MarshalTLB returns 'not implemented') and not modelled",
                     "known finding addr-workchain-int8: AddressWithWorkchain.Workchain is int8, so foreign 288-bit keys with a workchain outside -128..127 are truncated by the key decoder (C05_address_workchain_int8_refuted); dictionary-level theorems are about key bits and unaffected",
+                    "HashmapAug/HashmapAugE.MarshalTLB fails before touching the slices, so object histories do not apply to them",
+                    "two objects built from the same slices alias each other by design of NewHashmap: the history stream only reads through an alias (Put through one alias is visible through the other)",
                     "keys/values slices of different lengths (possible only through NewHashmap) now return an error; not representable in the model (list of pairs)"],
 }
 
@@ -42,7 +50,8 @@ META = {
              "dictionary with short/long/same labels per edge decodes to the mapping it represents; Get/Put on a decoded dictionary "
              "then Marshal/Unmarshal agree with lookup/update of the abstract map for every key type (unsigned, signed, bytes, 288-bit "
              "address keys). The extracted model reproduces the implementation's cell trees, decode results and Get/Put answers "
-             "exactly on ~16k (quick) / ~119k (thorough) generated cases incl. malformed dictionaries."),
+             "exactly on ~18k (quick) / ~130k (thorough) generated cases incl. malformed dictionaries and multi-step histories on one "
+             "dictionary object (Marshal must not change what the object answers or how it encodes the next time)."),
     'design_ref': 'DESIGN.md §6 C05, §7 F19',
     'note': ("Two defects repaired in /repo (AddressWithWorkchain.MarshalTLB missing; Hashmap.MarshalTLB depended on slice order); the "
              "old behaviour is kept as ..._before_fix in coq/Proofs/HashmapHistory.v and corpus/C05. One known finding "
